@@ -5,10 +5,16 @@ use std::marker::PhantomData;
 use std::mem;
 use std::ptr;
 use std::sync::atomic::Ordering::*;
+#[cfg(not(feature = "multiqueue2_verif"))]
 use std::sync::atomic::{fence, AtomicUsize};
+#[cfg(feature = "multiqueue2_verif")]
+use crate::verif_hooks::{fence, AtomicUsize};
 use std::sync::mpsc::{RecvError, SendError, TryRecvError, TrySendError};
 use std::sync::Arc;
+#[cfg(not(feature = "multiqueue2_verif"))]
 use std::thread::yield_now;
+#[cfg(feature = "multiqueue2_verif")]
+use crate::verif_hooks::yield_now;
 
 use crate::alloc;
 use crate::atomicsignal::LoadedSignal;
@@ -22,7 +28,10 @@ use crate::read_cursor::{ReadCursor, Reader};
 
 extern crate atomic_utilities;
 extern crate futures;
+#[cfg(not(feature = "multiqueue2_verif"))]
 extern crate parking_lot;
+#[cfg(feature = "multiqueue2_verif")]
+use crate::verif_hooks::parking_lot;
 extern crate smallvec;
 
 use self::futures::task::{current, Task};
@@ -1147,4 +1156,11 @@ pub fn futures_multiqueue_with<RW: QueueRW<T>, T>(
         prod_wait: prod_arc,
     };
     (ftx, rtx)
+}
+
+// Verification hook (off by default): contracts and proof harnesses kept outside the repository.
+#[cfg(feature = "multiqueue2_verif")]
+#[allow(dead_code, unused_imports, unused_variables, unused_mut)]
+mod verif_contracts {
+    include!(concat!(env!("MULTIQUEUE2_VERIF_DIR"), "/multiqueue.rs"));
 }
